@@ -84,6 +84,13 @@ ADMIN = ["U", "D", "O", "C", "T", "X", "Y"]
 E_FULL = (ADMIN +
           ["I1.%s.%s.0" % (i, c) for i in ("7", "255") for c in "gnrbm"] +
           ["I%d.%s.%s.0" % (k, i, c) for k in (2, 3, 4) for i in "csp" for c in "gnrbm"] +
+          # domain: stale Identifiers differing from the current one in exactly one bit, each bit in turn; peer / reply
+          # Identifiers with every bit position set; packets longer than 255 bytes (two-byte Length field)
+          ["I%d.x%d.b.0" % (k, 1 << b) for k in (2, 3, 4) for b in range(8)] +
+          ["I1.%d.g.0" % i for i in (0, 1, 2, 4, 8, 16, 32, 64, 128)] +
+          ["I5.%d.g.0" % i for i in (0, 128, 200, 255)] + ["I9.%d.g.4" % i for i in (0, 129, 254)] +
+          ["I12.%d.g.%d" % (i, n) for i, n in ((0, 0), (170, 251), (85, 252), (255, 300), (16, 1496))] +
+          ["I9.9.g.300", "I7.9.g.400"] +
           ["I5.9.g.0", "I5.c.g.0", "I6.9.g.0", "I6.c.g.0", "I7.9.g.0", "I7.c.g.6", "I8.9.g.0", "I8.9.g.4",
            "I9.9.g.0", "I9.9.g.3", "I9.9.g.4", "I9.c.g.8", "I10.9.g.0", "I10.9.g.4", "I11.9.g.0", "I11.9.g.4",
            "I0.9.g.0", "I12.9.g.3", "I13.3.g.0", "I255.c.g.8", "I14.0.g.1"])
@@ -161,7 +168,8 @@ def mk(kind, cfg, ops):
 WEIGHTED = ([("U", 3), ("D", 1), ("O", 3), ("C", 1), ("T", 5), ("X", 1), ("Y", 1), ("I1.7.g.0", 4), ("I1.9.n.0", 2), ("I1.7.r.0", 1),
              ("I1.8.b.0", 1), ("I1.7.m.0", 1), ("I2.c.b.0", 4), ("I2.c.r.0", 1), ("I2.s.g.0", 1), ("I2.p.m.0", 1),
              ("I3.c.b.0", 1), ("I3.c.n.0", 1), ("I3.c.r.0", 1), ("I3.s.n.0", 1), ("I3.p.g.0", 1), ("I4.c.g.0", 1),
-             ("I4.c.r.0", 1), ("I4.p.g.0", 1), ("I4.s.n.0", 1), ("I5.9.g.0", 1), ("I6.9.g.0", 1), ("I7.9.g.0", 1),
+             ("I4.c.r.0", 1), ("I4.p.g.0", 1), ("I4.s.n.0", 1), ("I2.x128.b.0", 1), ("I2.x16.b.0", 1), ("I3.x64.b.0", 1),
+             ("I4.x2.b.0", 1), ("I12.77.g.300", 1), ("I5.200.g.0", 1), ("I1.131.g.0", 1), ("I5.9.g.0", 1), ("I6.9.g.0", 1), ("I7.9.g.0", 1),
              ("I8.9.g.0", 1), ("I9.9.g.4", 2), ("I9.9.g.2", 1), ("I10.9.g.4", 1), ("I11.9.g.0", 1), ("I12.9.g.2", 1),
              ("I200.c.g.0", 1)])
 WPOP = [w[0] for w in WEIGHTED]
@@ -203,9 +211,9 @@ def gen_disp(rng, quick):
         kind = {"c021": "lcp", "8021": "ipcp", "8057": "ipv6cp"}.get(proto, "lcp")
         frames += [("1", "7", c, RCR_DATA[kind][c]) for c in "gnrm"]
         frames += [(str(k), i, "g", "") for k in (2, 3, 4) for i in ("c", "s")]
-        frames += [("5", "9", "g", ""), ("6", "9", "g", ""), ("7", "9", "g", "01010004"), ("8", "9", "g", ""),
+        frames += [("5", "200", "g", ""), ("6", "129", "g", ""), ("7", "9", "g", "01010004"), ("8", "9", "g", ""),
                    ("8", "9", "g", "80"), ("8", "9", "g", "8021"), ("8", "9", "g", "80570102"), ("9", "9", "g", ""),
-                   ("9", "9", "g", "01020304"), ("9", "9", "g", "0102030405"), ("10", "9", "g", "01020304"),
+                   ("9", "9", "g", "01020304"), ("9", "9", "g", "0102030405"), ("10", "250", "g", "01020304"),
                    ("11", "9", "g", "01020304"), ("12", "9", "g", "aa"), ("0", "9", "g", ""), ("255", "9", "g", "")]
     cases = []
     nph = range(8)
@@ -215,10 +223,10 @@ def gen_disp(rng, quick):
                 kind = {"c021": "lcp", "8021": "ipcp", "8057": "ipv6cp"}.get(proto, "lcp")
                 fr = [("1", "7", c, RCR_DATA[kind][c]) for c in "gnrm"]
                 fr += [(str(k), i, "g", "") for k in (2, 3, 4) for i in ("c", "s")]
-                fr += [("5", "9", "g", ""), ("6", "9", "g", ""), ("7", "9", "g", "01010004"), ("8", "9", "g", ""),
+                fr += [("5", "200", "g", ""), ("6", "129", "g", ""), ("7", "9", "g", "01010004"), ("8", "9", "g", ""),
                        ("8", "9", "g", "80"), ("8", "9", "g", "8021"), ("8", "9", "g", "80570102"),
                        ("9", "9", "g", ""), ("9", "9", "g", "01020304"), ("9", "9", "g", "0102030405"),
-                       ("10", "9", "g", "01020304"), ("11", "9", "g", "01020304"), ("12", "9", "g", "aa"),
+                       ("10", "250", "g", "01020304"), ("11", "9", "g", "01020304"), ("12", "9", "g", "aa"),
                        ("0", "9", "g", ""), ("255", "9", "g", "")]
                 if quick and ph in (0, 5, 6, 7) and proto in ("c023", "c223", "0021", "1234"):
                     fr = fr[:6]
@@ -237,6 +245,10 @@ def gen_disp(rng, quick):
                     for extra in ("-", "ffee"):
                         for code in (5, 9, 12):     # data is echoed / counted / ignored, never parsed as options
                             ops.append(dframe(3, proto, code, "7", "g", data, str(dl), extra))
+            big = "ab" * 300                      # > 255 bytes: both bytes of the Length field matter
+            for code in (9, 12):
+                ops.append(dframe(3, proto, code, "131", "g", big))
+                ops.append(dframe(3, proto, code, "131", "g", big, "260", "-"))
             for raw in ("-", "01", "0107", "010700", "01070004", "0107000400", "09090008deadbeef"):
                 ops.append("S3.%s.%s" % (proto, raw))
             # a truncated Configure-Request may parse differently: class of the cut option list
@@ -280,6 +292,7 @@ def gen_sess(rng, quick):
               [sframe(t, 5, "9") for t in "LIV"] + [sframe(t, 6, "9") for t in "LIV"] +
               [sframe(t, 7, "9", "g", "01010004") for t in "LIV"] +
               [sframe("L", 9, "5", "g", d) for d in ("", "0102", "01020304", "01020304aabb")] +
+              [sframe("L", 9, "250", "g", "01020304" + "cd" * 300), sframe("I", 5, "200"), sframe("V", 12, "129", "g", "ee" * 260)] +
               [sframe("L", 10, "5", "g", "01020304"), sframe("L", 11, "5", "g", ""), sframe("L", 12, "5", "g", "aa"),
                sframe("L", 8, "5", "g", "8021"), sframe("L", 8, "5", "g", "8057"), sframe("L", 8, "5", "g", "c021"),
                sframe("L", 8, "5", "g", "80"), sframe("I", 9, "5", "g", "01020304"), "F1234.1.1.g.aabb"])
@@ -441,7 +454,7 @@ def rfc_class(op, pre, kind="fsm"):
     last = pre[3]
     idn = {"c": last, "s": (last + 1) % 256, "p": (last - 1) % 256}.get(idv)
     if idn is None:
-        idn = int(idv)
+        idn = (last ^ int(idv[1:])) if idv[0] == "x" else int(idv)
     if 8 <= code <= 11 and kind not in ("fsm", "lcp"):
         return "RUC"
     if code == 1:
